@@ -72,6 +72,7 @@ func runC19(c *engine.Ctx, tier string) {
 	subscribeRefusals(c)
 	pollAndRelay(c)
 	monitorStarted(c)
+	subscriptionOwnsItsBackingClient(c)
 }
 
 func subPaths(c *engine.Ctx, root string) ([]*engine.Path, error) {
@@ -485,5 +486,52 @@ func monitorStarted(c *engine.Ctx) {
 				Msg: "a path of Subscribe does not start `go c.run(ctx)` itself: a later subscription on the shared client gets no response monitor"})
 			return
 		}
+	}
+}
+
+// subscriptionOwnsItsBackingClient: C19.6 (finding F62). The backing openconfig client holds ONE subscription
+// stream, ONE response handler and is read by the monitor goroutine; the connection manager hands one southbound
+// client per target to every northbound stream. A subscription therefore needs a backing client of its own
+// (created inside client.Subscribe), or client.Subscribe has to refuse while a subscription is open.
+func subscriptionOwnsItsBackingClient(c *engine.Ctx) {
+	o := c.Custom("C19.6", "K-fresh(backing client)", "southbound client.Subscribe: the backing client asked to subscribe is created in this call, or the call is reached only under a test of a receiver flag that says no subscription is open",
+		"updates from each target are relayed to the subscriber as received: the per-target southbound client is shared by all northbound streams, a second subscription on its single backing client replaces the first one's handler and stream and two monitors read one stream")
+	defer o.Done(1)
+	ps, err := c.A.PathsOpt("pkg/southbound/gnmi", engine.PathOpts{Roots: []string{"southbound/gnmi.client.Subscribe"}, Exact: true, NoInline: true})
+	if err != nil || len(ps) == 0 {
+		o.Undecided("pkg/southbound/gnmi", fmt.Sprintf("no paths for client.Subscribe: %v", err))
+		return
+	}
+	found := false
+	for _, p := range ps {
+		if p.Lit != nil {
+			continue
+		}
+		for i := range p.Events {
+			e := &p.Events[i]
+			if e.Kind != engine.EvCall || !strings.HasSuffix(e.CalleeName, "Client.Subscribe") || e.CalleeName == "southbound/gnmi.client.Subscribe" {
+				continue
+			}
+			found = true
+			o.Eval(1)
+			o.Site(c.P.Pos(e.Pos) + " backing subscribe on " + e.Recv)
+			if !strings.HasPrefix(e.Recv, "$recv") {
+				continue // not the receiver's long-lived state: created in this call
+			}
+			guarded := false
+			for _, l := range engine.CondsBefore(p, i) {
+				if strings.Contains(l.L, "$recv") && (strings.Contains(l.L, "atomic.Bool") || strings.Contains(l.L, "CompareAndSwap") || strings.Contains(l.L, "Load")) {
+					guarded = true
+				}
+			}
+			if !guarded {
+				o.Fail(&engine.Violation{Key: "southbound/gnmi.client.Subscribe|backing client shared between subscriptions", Pos: c.P.Pos(e.Pos), Func: p.Root.Name(),
+					Msg: "the subscription is opened on " + e.Recv + ", the one backing client of the per-target southbound client, without refusing when a subscription is already open: a second northbound stream to the same target replaces the first one's handler and stream, and both monitors read the same stream"})
+				return
+			}
+		}
+	}
+	if !found {
+		o.Undecided("southbound/gnmi.client.Subscribe", "anchor not found: no call of a backing Client.Subscribe")
 	}
 }
